@@ -35,6 +35,9 @@ Proof.
   induction l as [|x r IH]; cbn [psort fold_right]; [constructor|]. apply ins_prio_sorted. exact IH.
 Qed.
 
+Lemma psort_sorted_perm ents : Permutation (psort ents) ents /\ StronglySorted prio_ge (psort ents).
+Proof. split; [apply psort_perm|apply psort_sorted]. Qed.
+
 (* in a priority-sorted list a strictly higher priority comes first *)
 Lemma sorted_split_before l : forall v u,
   StronglySorted prio_ge l -> In v l -> In u l -> e_prio u < e_prio v ->
@@ -60,20 +63,6 @@ Proof.
 Qed.
 
 (* ---------------- the latch as a function of the log ---------------- *)
-Fixpoint dont_after (d : list N) (evs : list ev) : list N :=
-  match evs with
-  | [] => d
-  | EStart it _ false :: r => dont_after (it :: d) r
-  | _ :: r => dont_after d r
-  end.
-(* no StartContainer(it, _) once a StartContainer(it, _) has failed *)
-Fixpoint latch_b (d : list N) (evs : list ev) : bool :=
-  match evs with
-  | [] => true
-  | EStart it _ r :: rest => negb (memN it d) && latch_b (if r then d else it :: d) rest
-  | _ :: rest => latch_b d rest
-  end.
-
 Lemma dont_after_app d a b : dont_after d (a ++ b) = dont_after (dont_after d a) b.
 Proof.
   revert d. induction a as [|x a IH]; intros d; cbn [app dont_after]; [reflexivity|].
@@ -242,72 +231,64 @@ Record step_facts (e : ent) (s : rstate P) (evs : list ev) (s' : rstate P) (brk 
                (u = e_uuid e /\ e_state e = Queued /\ eligible e = true /\ In (EKill u false) evs)
 }.
 
+Ltac solve_field El :=
+  first
+  [ solve [repeat constructor]
+  | solve [intros _; exact El]
+  | solve [intros HH; exfalso; apply HH; reflexivity]
+  | solve [intros; discriminate]
+  | solve [intros; congruence]
+  | solve [intros ? ? ? HH; repeat (destruct HH as [HH|HH]; [discriminate|]); destruct HH]
+  | solve [intros ? HH; repeat (destruct HH as [HH|HH]; [discriminate|]); destruct HH]
+  | solve [intros a0 it0 u0 r0 b0 EE; destruct a0 as [|? [|? [|? ?]]]; discriminate]
+  | solve [intros ? HH; left; exact HH]
+  | solve [split; [exact El|auto]]
+  | solve [intros _; split; [exact El|auto]] ].
+
 Lemma step_ok e s evs s' brk : step e s = (evs, s', brk) -> step_facts e s evs s' brk.
 Proof.
   unfold C16_runq.step. intros H.
   destruct (C16_runq.eligible running e) eqn:El; cbn [negb] in H.
-  2:{ inv_pair. constructor; cbn; auto; try (intros; contradiction); try discriminate.
-      - intros a it u r b E. destruct a; discriminate. }
+  2:{ inv_pair. constructor; cbn [dontstart locks unalloc]; try solve_field El. }
   destruct (e_state e) eqn:Es.
   - (* Queued *)
     destruct (if uget (e_it e) (unalloc s) <? 1 then p_quota (pool s) else (false, pool s)) as [stop p0].
     destruct stop.
-    { inv_pair. constructor; cbn [dontstart locks]; auto; try (intros; contradiction); try discriminate.
-      - intros a it u r b E. destruct a; discriminate. }
+    { inv_pair. constructor; cbn [dontstart locks unalloc]; try solve_field El. }
     destruct (p_kill (e_uuid e) p0) as [k p1]. destruct k; inv_pair.
-    + constructor; cbn [dontstart locks]; auto; try discriminate.
-      * repeat constructor.
-      * intros it u r [E|[]]. discriminate.
-      * intros u [E|[]]. discriminate.
-      * intros a it u r b E. destruct a as [|y [|z a]]; discriminate.
-    + constructor; cbn [dontstart locks]; auto; try discriminate.
-      * repeat constructor.
-      * intros it u r [E|[]]. discriminate.
-      * intros u [E|[]]. discriminate.
-      * intros a it u r b E. destruct a as [|y [|z a]]; discriminate.
-      * intros u [<-|Hu]; [right|left; exact Hu]. repeat split; auto. left; reflexivity.
+    + constructor; cbn [dontstart locks unalloc]; try solve_field El.
+    + constructor; cbn [dontstart locks unalloc]; try solve_field El.
+      intros u [<-|Hu]; [right|left; exact Hu]. split; [reflexivity|]. split; [exact Es|]. split; [exact El|]. left; reflexivity.
   - (* Locked *)
     destruct (0 <? uget (e_it e) (unalloc s)).
     + destruct (try_start e {| unalloc := udec (e_it e) (unalloc s); dontstart := dontstart s; locks := locks s; pool := pool s |})
         as [evs0 s0] eqn:Et.
       inv_pair. apply try_start_facts in Et. cbn [dontstart locks unalloc] in Et.
       destruct Et as (A & L & D & U & K & Sh & O & KF).
-      constructor; auto; try discriminate.
+      constructor; try solve_field El; try first [exact A|exact L|exact D|exact KF].
       * intros u Hin. specialize (Sh _ Hin). destruct Sh.
       * intros _ _ _. destruct O as [O|[O|O]]; auto.
       * intros u Hu. left. rewrite K in Hu. exact Hu.
     + destruct (p_quota (pool s)) as [q p0]. destruct q.
-      { inv_pair. constructor; cbn [dontstart locks]; auto; try discriminate.
-        - repeat constructor.
-        - intros it u r [E|[]]. discriminate.
-        - congruence.
-        - intros a it u r b E. destruct a as [|y [|z a]]; discriminate. }
+      { inv_pair. constructor; cbn [dontstart locks unalloc]; try solve_field El.
+        intros u [E|[]]. split; [exact Es|reflexivity]. }
       destruct (p_create (e_it e) p0) as [c p1]. destruct c.
       * destruct (try_start e {| unalloc := unalloc s; dontstart := dontstart s; locks := locks s; pool := p1 |})
           as [evs0 s0] eqn:Et.
         inv_pair. apply try_start_facts in Et. cbn [dontstart locks unalloc] in Et.
         destruct Et as (A & L & D & U & K & Sh & O & KF).
-        constructor; auto; try discriminate.
+        constructor; try solve_field El; try first [exact L|exact D].
         -- constructor; [reflexivity|exact A].
         -- intros u [E|Hin]; [discriminate|]. specialize (Sh _ Hin). destruct Sh.
         -- intros _ _ _. destruct O as [O|[O|O]]; auto. right; left; right; exact O. right; right; left; right; exact O.
         -- intros a it u r b E. destruct a as [|y a]; cbn [app] in E; [discriminate|].
            injection E as <- E. destruct (KF _ _ _ _ _ E) as [a' ->]. exists (ECreate (e_it e) true :: a'). reflexivity.
         -- intros u Hu. left. rewrite K in Hu. exact Hu.
-      * inv_pair. constructor; cbn [dontstart locks]; auto; try discriminate.
-        -- repeat constructor.
-        -- intros it u r [E|[]]. discriminate.
-        -- intros u [E|[]]. discriminate.
-        -- intros _ _ _. right; right; right. left; reflexivity.
-        -- intros a it u r b E. destruct a as [|y [|z a]]; discriminate.
-  - inv_pair. constructor; cbn; auto; try (intros; contradiction); try discriminate.
-    intros a it u r b E. destruct a; discriminate.
-  - inv_pair. constructor; cbn; auto; try (intros; contradiction); try discriminate.
-    intros a it u r b E. destruct a; discriminate.
-  - inv_pair. constructor; cbn; auto; try (intros; contradiction); try discriminate.
-    intros a it u r b E. destruct a; discriminate.
-  - inv_pair. constructor; cbn; auto; try (intros; contradiction); try discriminate.
-    intros a it u r b E. destruct a; discriminate.
+      * inv_pair. constructor; cbn [dontstart locks unalloc]; try solve_field El.
+  - inv_pair. constructor; cbn [dontstart locks unalloc]; try solve_field El.
+  - inv_pair. constructor; cbn [dontstart locks unalloc]; try solve_field El.
+  - inv_pair. constructor; cbn [dontstart locks unalloc]; try solve_field El.
+  - inv_pair. constructor; cbn [dontstart locks unalloc]; try solve_field El.
 Qed.
 
 (* ---------------- the loop ---------------- *)
@@ -348,22 +329,22 @@ Proof.
 Qed.
 
 (* where the loop breaks *)
-Lemma loop_tail l : forall s evs s' t tail,
-  loop l s = (evs, s', t) -> t = Some tail ->
+Lemma loop_tail l : forall s evs s' tail,
+  loop l s = (evs, s', Some tail) ->
   exists l1 e r, l = l1 ++ tail /\ tail = e :: r /\ eligible e = true /\
                  (e_state e = Locked \/ e_state e = Queued) /\
                  (forall u, In (EUnlock u) evs -> u = e_uuid e /\ e_state e = Locked).
 Proof.
-  induction l as [|e r IH]; intros s evs s' t tail H Ht.
-  - cbn in H. inv_pair. discriminate.
+  induction l as [|e r IH]; intros s evs s' tail H.
+  - cbn in H. discriminate.
   - rewrite loop_cons in H. destruct (step e s) as [[evs0 s1] b] eqn:Es.
     pose proof (step_ok _ _ _ _ _ Es) as F. destruct b.
-    + inv_pair. injection Ht as <-. exists [], e, r. split; [reflexivity|]. split; [reflexivity|].
+    + injection H as <- <- <-. exists [], e, r. split; [reflexivity|]. split; [reflexivity|].
       destruct (sf_brk_elig _ _ _ _ _ F eq_refl) as [E1 E2]. split; [exact E1|]. split; [exact E2|].
       intros u Hu. destruct (sf_unlock _ _ _ _ _ F u Hu) as [L _]. split; [|exact L].
       pose proof (sf_about _ _ _ _ _ F) as A. rewrite Forall_forall in A. exact (A _ Hu).
-    + destruct (loop r s1) as [[evs2 s2] t2] eqn:El. inv_pair.
-      destruct (IH _ _ _ _ _ El eq_refl) as (l1 & e' & r' & -> & -> & E1 & E2 & E3).
+    + destruct (loop r s1) as [[evs2 s2] t2] eqn:El. injection H as <- <- ->.
+      destruct (IH _ _ _ _ El) as (l1 & e' & r' & -> & -> & E1 & E2 & E3).
       exists (e :: l1), e', r'. split; [reflexivity|]. split; [reflexivity|]. split; [exact E1|]. split; [exact E2|].
       intros u Hu. apply in_app_or in Hu. destruct Hu as [Hu|Hu]; [|apply E3; exact Hu].
       destruct (sf_unlock _ _ _ _ _ F u Hu) as [_ Hb]. discriminate.
@@ -374,8 +355,8 @@ Proof.
   induction l as [|e r IH]; intros s evs s' u H Hu.
   - cbn in H. inv_pair. destruct Hu.
   - rewrite loop_cons in H. destruct (step e s) as [[evs0 s1] b] eqn:Es.
-    pose proof (step_ok _ _ _ _ _ Es) as F. destruct b; [inv_pair|].
-    destruct (loop r s1) as [[evs2 s2] t2] eqn:El. inv_pair.
+    pose proof (step_ok _ _ _ _ _ Es) as F. destruct b; [discriminate|].
+    destruct (loop r s1) as [[evs2 s2] t2] eqn:El. injection H as <- <- ->.
     apply in_app_or in Hu. destruct Hu as [Hu|Hu]; [|eapply IH; eauto].
     destruct (sf_unlock _ _ _ _ _ F u Hu) as [_ Hb]. discriminate.
 Qed.
@@ -525,6 +506,10 @@ Proof.
   generalize (dont_after [] evs). induction (filter is_locked tail) as [|e r IH]; intros d; [reflexivity|apply IH].
 Qed.
 
+Theorem rq_dontstart_latch_prop sorted u0 p a it u b :
+  r_log (run_queue_sorted sorted u0 p) = a ++ EStart it u false :: b -> forall u' r', ~ In (EStart it u' r') b.
+Proof. apply latch_b_reflects. apply rq_dontstart_latch. Qed.
+
 (* C16: no lower-priority start overtakes a Locked container waiting for a worker of the same type *)
 Theorem rq_no_overtake sorted u0 p v u r :
   StronglySorted prio_ge sorted -> NoDup (uuids sorted) ->
@@ -559,7 +544,7 @@ Proof.
   destruct (rq_log_cases sorted u0 p) as (evs & s & t & El & E & _). rewrite E in *.
   destruct t as [tail|].
   2:{ rewrite app_nil_r in Hin. exfalso. exact (loop_no_unlock _ _ _ _ _ El Hin). }
-  destruct (loop_tail _ _ _ _ _ _ El eq_refl) as (l1 & e & r & -> & -> & E1 & E2 & E3).
+  destruct (loop_tail _ _ _ _ _ El) as (l1 & e & r & -> & -> & E1 & E2 & E3).
   assert (Hut : In u (e :: r)).
   { apply in_app_or in Hin. destruct Hin as [Hin|Hin].
     - destruct (E3 _ Hin) as [Hue _].
@@ -597,7 +582,7 @@ Proof.
     pose proof (step_ok _ _ _ _ _ B) as F. pose proof (sf_about _ _ _ _ _ F) as Ab. rewrite Forall_forall in Ab.
     exists e. split; [exact A|]. split; [symmetry; exact (Ab _ C)|]. exact (proj1 (sf_unlock _ _ _ _ _ F _ C)).
   - destruct t as [tail|]; [|destruct Hin]. apply in_unlock_map in Hin. destruct Hin as (e & Ee & Hin' & Hl).
-    injection Ee as ->. destruct (loop_tail _ _ _ _ _ _ El eq_refl) as (l1 & e0 & r & -> & -> & _).
+    injection Ee as ->. destruct (loop_tail _ _ _ _ _ El) as (l1 & e0 & r & -> & -> & _).
     exists e. split; [apply in_or_app; right; exact Hin'|]. split; [reflexivity|exact Hl].
 Qed.
 
